@@ -685,9 +685,11 @@ def r04_4(ctx, rr):
         fb = F.one(path)
         okf = False
         for lp in [n for n in walk(fb.body) if n.get("k") == "Loop" and n.get("src") == "While"]:
-            ups = [(x["op"], show(F, x["l"]), show(F, x["r"])) for x in walk(lp["body"]) if x.get("k") == "AssignOp"]
-            refills = [x for x in walk(lp["body"]) if x.get("k") == "Assign" and show(F, x["l"]) == "window"]
-            if ("+=", "word_idx", "1") in ups and len(refills) == 1 and "word_idx" in show(F, refills[0]["r"]):
-                okf = True
+            incs = [x for x in walk(lp["body"]) if x.get("k") == "AssignOp" and x["op"] == "+=" and x["l"].get("k") == "Path" and x["r"].get("v") == "1"]
+            refills = [x for x in walk(lp["body"]) if x.get("k") == "Assign" and x["l"].get("k") == "Path"]
+            for inc in incs:
+                cid = inc["l"]["id"]
+                if any(any(y.get("k") == "Path" and y.get("id") == cid for y in walk(r["r"])) and any(y.get("k") == "MethodCall" and y["name"] == "get_unchecked" for y in walk(r["r"])) for r in refills):
+                    okf = True
         rr.instances += 1
         rr.check(okf, "%s:forward-scan-advances" % short_fn(fb.key), "%s: while the window is empty the scan must move to the next word (`word_idx += 1`) and reload the window from it" % fb.key, fb.span)
